@@ -13,6 +13,12 @@ rsync -a --delete --exclude target --exclude .git /repo/ "$COPY/"
 # cargo decides freshness by mtime: make every source of the copy newer than the last build
 find "$COPY" -name '*.rs' -exec touch {} +
 ROOT="$(cd "$(dirname "${BASH_SOURCE[0]}")/.." && pwd)"
+if [ "${VERIF_FROM_HEAD:-0}" = 1 ]; then
+    # run the checks as committed (HEAD of /verif), not the working tree that may be mid-edit
+    rm -rf "$S/verif-head"; mkdir -p "$S/verif-head"
+    git -C "$ROOT" archive HEAD sim run_check.sh known_findings.txt | tar -x -C "$S/verif-head"
+    ROOT="$S/verif-head"
+fi
 set +e
 unshare -m sh -c "mount --bind '$COPY' /repo && CARGO_TARGET_DIR='$S/mut-target' VERIF_OUT='$S/mut-out' '$ROOT/run_check.sh' '$PROP' '$TIER'"
 rc=$?
